@@ -165,12 +165,15 @@ pub fn run(toks: &[&str]) -> String {
         }
         let t0;
         let res = if via_call {
-            let transport = TcpTransport::builder().with_config(config).with_resolver(Fixed(addrs.clone())).build::<TcpStream>();
+            // (the configuration before or after the resolver: both orders of the builder calls)
+            let transport = if kinds.len() % 2 == 0 { TcpTransport::builder().with_config(config).with_resolver(Fixed(addrs.clone())).build::<TcpStream>() }
+                            else { TcpTransport::builder().with_resolver(Fixed(addrs.clone())).with_config(config).build::<TcpStream>() };
             let parts = http::Request::get(format!("http://tcpc.test:{port}/")).body(()).unwrap().into_parts().0;
             t0 = Instant::now();
             tokio::time::timeout(Duration::from_secs(20), tower::ServiceExt::oneshot(transport, parts)).await
         } else {
-            let transport = TcpTransport::builder().with_config(config).with_gai_resolver().build::<TcpStream>();
+            let transport = if kinds.len() % 2 == 0 { TcpTransport::builder().with_config(config).with_gai_resolver().build::<TcpStream>() }
+                            else { TcpTransport::builder().with_gai_resolver().with_config(config).build::<TcpStream>() };
             t0 = Instant::now();
             tokio::time::timeout(Duration::from_secs(20), transport.connect_to_addrs(addrs.clone())).await
         };
